@@ -426,6 +426,31 @@ def _check_segments(i):
                     pass
             if (sim.n_circuits_executed, sim.n_jobs_executed) != (nc, nj):
                 return False, f"native set '{name}': a rejected request changed the counters"
+        # an operation that fails in the middle of a run: what was counted is what was started - never the segments behind the failure
+        bad_phase = MultiPhaseOperation((0.1, 0.2))          # two angles for a four-dimensional state: apply raises
+        for ops, fail_at in (([H(0), bad_phase, X(1)], 1), ([H(0), bad_phase, X(1), mp, H(1)], 1), ([bad_phase, H(0)], 0), ([H(0), mp, X(1), bad_phase, H(0), mp, X(0)], 3)):
+            sim = make(native if native is not None else (lambda op: isinstance(op, GateOperation)))
+            flags = [bool(sim.is_natively_supported(op)) for op in ops]
+            if flags[fail_at]:
+                continue             # this simulator treats the phase operation as native: nothing fails in the base class
+            seg_of = []
+            k = -1
+            for j, f in enumerate(flags):
+                if j == 0 or f != flags[j - 1]:
+                    k += 1
+                seg_of.append(k)
+            started = seg_of[fail_at] + 1
+            native_before = sum(1 for j, f in enumerate(flags[:fail_at]) if f and (j == 0 or not flags[j - 1]))
+            c = Circuit(ops, n_qubits=2)
+            nc, nj, r0 = sim.n_circuits_executed, sim.n_jobs_executed, sim.runs
+            try:
+                sim.get_wavefunction(c)
+                return False, f"native set '{name}': {c} ran although one of its operations cannot be applied"
+            except Exception:
+                pass
+            if sim.runs - r0 != native_before or sim.n_circuits_executed - nc != native_before or not (started - 1 <= sim.n_jobs_executed - nj <= started):
+                return False, f"native set '{name}', {c} failing at operation {fail_at}: counters grew by (circuits {sim.n_circuits_executed - nc}, jobs {sim.n_jobs_executed - nj}); " \
+                              f"{native_before} native segments were run and {started} segments were started"
     return True, "ok"
 
 
@@ -481,6 +506,64 @@ def _check_tracker(case):
             gc.collect()
             if rec["circuit"] != want or rec["number_of_gates"] != ngates:
                 return False, f"call {i}: the record describes another circuit than the one that was run"
+        # circuits that compare EQUAL to their neighbour in the batch without being the same circuit (parameters 1e-9 apart, 1 vs 1.0): each record carries ITS circuit
+        t3 = MeasurementTrackingBackend(SymbolicSimulator(seed=7), path, record_bits)
+        near = [Circuit([RX(0.3)(0)]), Circuit([RX(0.3 + 1e-9)(0)]), Circuit([RX(0.3)(0)]), Circuit([RX(1)(0)]), Circuit([RX(1.0)(0)]), Circuit([RX(1.0)(0)], n_qubits=2), Circuit([RX(1.0 - 1e-10)(0)], n_qubits=2)]
+        if batch:
+            t3.run_batch_and_measure(near, 2)
+            recs = json.load(open(path))["raw-data"]
+        else:
+            recs = []
+            for c in near:
+                t3.run_and_measure(c, 2)
+                recs.append(json.load(open(path))["raw-data"][-1])
+        if len(recs) != len(near):
+            return False, f"{len(recs)} records for {len(near)} circuits"
+        for i, (rec, c) in enumerate(zip(recs, near)):
+            if json.dumps(rec["circuit"], sort_keys=True) != json.dumps(to_dict(c), sort_keys=True):
+                return False, f"record {i} of a batch of nearly equal circuits carries {rec['circuit']['operations']} for the circuit {c}"
+        # a call the wrapped runner refuses for its own reasons leaves no trace: the file written by the next successful call describes that call only
+        from orquestra.quantum.api.circuit_runner import BaseCircuitRunner
+        from orquestra.quantum.measurements import Measurements
+
+        class Picky(BaseCircuitRunner):
+            def _run_and_measure(self, circuit, n):
+                if len(circuit.operations) == 3:
+                    raise RuntimeError("device offline")
+                return Measurements([(0,) * circuit.n_qubits] * n)
+
+            def get_measurement_outcome_distribution(self, circuit, n_samples=None):
+                if len(circuit.operations) == 3:
+                    raise RuntimeError("device offline")
+                return super().get_measurement_outcome_distribution(circuit, n_samples)
+        t4 = MeasurementTrackingBackend(Picky(), path, record_bits)
+        good, badc = Circuit([X(0)], n_qubits=2), Circuit([X(0), X(1), X(0)], n_qubits=2)
+        for first in ("distribution", "run", "batch"):
+            nc, nj = t4.n_circuits_executed, t4.n_jobs_executed
+            try:
+                if first == "distribution":
+                    t4.get_measurement_outcome_distribution(badc, 5)
+                elif first == "run":
+                    t4.run_and_measure(badc, 5)
+                else:
+                    t4.run_batch_and_measure([good, badc], [2, 2])
+                return False, "the wrapped runner's error was swallowed"
+            except RuntimeError:
+                pass
+            for second in ("run", "distribution", "batch"):
+                if second == "run":
+                    t4.run_and_measure(good, 3)
+                    k = 1
+                elif second == "distribution":
+                    t4.get_measurement_outcome_distribution(good, 4)
+                    k = 1
+                else:
+                    t4.run_batch_and_measure([good, good], [2, 3])
+                    k = 2
+                recs = json.load(open(path))["raw-data"]
+                if len(recs) != k or any(r_["number_of_gates"] != 1 for r_ in recs):
+                    return False, f"after a {first} call the wrapped runner refused, the file written by a successful {second} call holds {len(recs)} records " \
+                                  f"({[r_['number_of_gates'] for r_ in recs]} gates) for {k} results"
         return True, "ok"
     finally:
         import shutil
